@@ -9,7 +9,7 @@ import (
 func init() {
 	register(&PropRule{
 		ID:    "C37",
-		Roots: []string{"./private/ca/renewal", "./pkg/scrypto/cppki"},
+		Roots: []string{"./private/ca/renewal", "./pkg/scrypto/cppki", "./private/trust"},
 		Explain: "Decides on all CFG paths: VerifyCMSSignedRenewalRequest returns a CSR only after the " +
 			"CMS parses, a valid two-certificate chain was extracted, VerifySignature succeeded and " +
 			"processCSR accepted the CSR parsed from the signed payload, bound to the chain's AS " +
@@ -69,7 +69,12 @@ func init() {
 
 func runC37(c *Ctx) {
 	requireStateless(c, "M1-no-state-between-requests", "(private/ca/renewal.RequestVerifier).VerifyCMSSignedRenewalRequest")
-	rT := "(private/ca/renewal.RequestVerifier)"
+	// "that chain verifies against the currently valid TRC" is cppki.VerifyChain: the
+	// chain validation, the x509 verification at the given time against the TRC's
+	// root pool (C34 V1, V2) and the certificate constraints (C34 K1).
+	c.Borrow(runC34, map[string]string{"V1-validate-chain": "C1-what-chain-verifies-means", "V2-verify-chain": "C1-what-chain-verifies-means",
+		"K1-scion-certificate-constraints": "C1-what-chain-verifies-means"})
+	rT :="(private/ca/renewal.RequestVerifier)"
 	if v := c.View(rT + ".VerifyCMSSignedRenewalRequest"); v != nil {
 		e := NewE1(c, v.Fn)
 		sd := "(pkg/scrypto/cms/protocol.ContentInfo).SignedDataContent(pkg/scrypto/cms/protocol.ParseContentInfo(arg1)#0)#0"
